@@ -973,7 +973,8 @@ impl Bgi {
     }
 
     pub fn flood_fill(&mut self, x: i32, y: i32, border: u8) {
-        if !self.viewport.contains(x, y) {
+        // Rectangle::contains includes the far edges: a seed point on them is outside the canvas
+        if !self.viewport.contains(x, y) || x >= self.viewport.right() || y >= self.viewport.bottom() {
             return;
         }
         // indexed by absolute canvas row
